@@ -788,6 +788,20 @@ def r5_simple(chk, prog, eng, L):
                                 bad = 'dest[ %r] holds %s' % (i, show(act))
                     chk.check(bad is None, 'R5', f.name, 'the copied characters are text[ pos + i] [%s]' % tag, f.loc(),
                               bad or '')
+                    # ... and nothing else is written: std::string::copy() appends no NUL, the caller's bytes from
+                    # the returned count on keep their content
+                    j = eng.fresh('behind', s, 'unsigned long')
+                    s3 = s.copy()
+                    s3.assume(ge(j, r), lt(j, cnt))
+                    bad = None
+                    dest = f.params[0]['name']
+                    if s3.ok():
+                        for act, sa in eng.content_at(s3, dest, j):
+                            if not same(eng, sa, act, ('init', dest, j)):
+                                bad = 'dest[ %r] (behind the %r copied characters) is overwritten with %s' % (
+                                    j, r, show(act))
+                    chk.check(bad is None, 'R5', f.name, 'copy() writes the copied characters only, the rest of the '
+                              'destination keeps its content [%s]' % tag, f.loc(), bad or '')
     chk.require(count >= 14, 'only %d simple observers of FixedString<%d> found' % (count, L))
     return count
 
